@@ -1156,6 +1156,10 @@ impl RoomAuthorisations {
         }
         let room_id = room_id.unwrap();
 
+        if node_to_insert.old_verifying_key.is_some() && node_to_insert.old_room_id.is_none() {
+            //the local row with this id belongs to no room (room definitions, peers..): never replaced by a peer
+            return false;
+        }
         if let Some(old_room_id) = &node_to_insert.old_room_id {
             if !old_room_id.eq(&room_id) {
                 let room = self.rooms.get(old_room_id);
